@@ -1,18 +1,6 @@
 use delaunay::prelude::*;
 fn main() {
-    let v2 = [vertex!([0.0, 0.0]), vertex!([1.0, 0.0]), vertex!([0.0, 1.0]), vertex!([1.0, 1.0])];
-    let mut dt: DelaunayTriangulation<_, (), (), 2> = DelaunayTriangulation::new(&v2).unwrap();
-    let v = *dt.vertices().next().unwrap().1;
-    println!("2D before cells={} verts={}", dt.number_of_cells(), dt.number_of_vertices());
-    println!("2D remove {:?} -> {:?}; cells={} verts={}", v.point().coords(), dt.remove_vertex(&v), dt.number_of_cells(), dt.number_of_vertices());
-    let v3 = [vertex!([0.0, 0.0, 0.0]), vertex!([1.0, 0.0, 0.0]), vertex!([0.0, 1.0, 0.0]), vertex!([0.0, 0.0, 1.0]), vertex!([1.0, 1.0, 1.0])];
-    let mut dt: DelaunayTriangulation<_, (), (), 3> = DelaunayTriangulation::new(&v3).unwrap();
-    let v = *dt.vertices().next().unwrap().1;
-    println!("3D before cells={} verts={}", dt.number_of_cells(), dt.number_of_vertices());
-    println!("3D remove {:?} -> {:?}; cells={} verts={}", v.point().coords(), dt.remove_vertex(&v), dt.number_of_cells(), dt.number_of_vertices());
-    let v4 = [vertex!([0.0, 0.0, 0.0, 0.0]), vertex!([1.0, 0.0, 0.0, 0.0]), vertex!([0.0, 1.0, 0.0, 0.0]), vertex!([0.0, 0.0, 1.0, 0.0]), vertex!([0.0, 0.0, 0.0, 1.0]), vertex!([1.0, 1.0, 1.0, 1.0])];
-    let mut dt: DelaunayTriangulation<_, (), (), 4> = DelaunayTriangulation::new(&v4).unwrap();
-    let v = *dt.vertices().next().unwrap().1;
-    println!("4D before cells={} verts={}", dt.number_of_cells(), dt.number_of_vertices());
-    println!("4D remove {:?} -> {:?}; cells={} verts={}", v.point().coords(), dt.remove_vertex(&v), dt.number_of_cells(), dt.number_of_vertices());
+    let v2 = [vertex!([0.0, 0.0]), vertex!([1.0, 0.0]), vertex!([0.0, 1.0]), vertex!([1.0, 1.5])];
+    let dt: DelaunayTriangulation<_, (), (), 2> = DelaunayTriangulation::new(&v2).unwrap();
+    println!("{}", serde_json::to_string_pretty(&dt).unwrap());
 }
